@@ -135,14 +135,10 @@ Definition field_ok (fm : fmeta) (ft : ty) : bool := default_ok fm && skip_ok fm
 Fixpoint enum_ok (al : list (str * str)) (all : list (str * str)) : bool :=
   match al with [] => true | (_, c) :: r => str_eqb (assoc_alias c all) c && enum_ok r all end.
 
-(** [Option<Option<T>>] and [Option<Value>] print [Some(None)] / [Some(Null)] as `null`, which reads
-    back as [None]: not a round trip, so not in the modelled subset *)
-Definition opt_inner_ok (t : ty) : bool := match t with TOpt _ | TAny => false | _ => true end.
-
 Fixpoint wf_ty (t : ty) : bool :=
   match t with
   | TEnum al => enum_ok al al
-  | TOpt t' => opt_inner_ok t' && wf_ty t'
+  | TOpt t' => wf_ty t'
   | TVec t' | TMap _ t' => wf_ty t'
   | TStruct fs =>
       nodup_strs (flat_map field_names fs)
@@ -201,7 +197,7 @@ Section Proofs.
     | TAny, VAny j => nodup_deep j = true
     | TObjAny, VAny j => (exists m, j = JObj m) /\ nodup_deep j = true
     | TOpt _, VNone => True
-    | TOpt t', VSome v' => ok t' v'
+    | TOpt t', VSome v' => ok t' v' /\ ser t' v' <> Some JNull   (* [Some(None)] / [Some(Null)] print as `null`, which reads back as [None]: such values never come from the wire *)
     | TVec t', VVec l => (fix go (l : list val) : Prop := match l with [] => True | x :: r => ok t' x /\ go r end) l
     | TMap c t', VMap m =>
         NoDup (List.map fst m)
@@ -410,6 +406,31 @@ Section Proofs.
     now apply assoc_alias_canon.
   Qed.
 
+  (** what [deser] reads from a non-null JSON value never prints as `null` *)
+  Lemma deser_ser_not_null t : forall j v, deser t j = Some v -> j <> JNull -> ser t v <> Some JNull.
+  Proof.
+    induction t as [|c|al| |lo hi| | |t IH|t IH|c t IH|fs IH] using ty_ind'; intros j v H Hj; cbn [Serde.deser] in H.
+    - destruct j; try discriminate. injection H as <-. discriminate.
+    - destruct j; try discriminate. destruct (valid c s); [|discriminate]. injection H as <-. discriminate.
+    - destruct j; try discriminate. injection H as <-. discriminate.
+    - destruct j; try discriminate. injection H as <-. discriminate.
+    - destruct j; try discriminate. destruct ((lo <=? z)%Z && (z <=? hi)%Z); [|discriminate]. injection H as <-. discriminate.
+    - injection H as <-. cbn. congruence.
+    - destruct j; try discriminate. injection H as <-. discriminate.
+    - destruct j; try contradiction;
+        (destruct (Serde.deser valid t _) as [v'|] eqn:E; [|discriminate]; injection H as <-; cbn [ser];
+         eapply IH; [exact E|discriminate]).
+    - destruct j; try discriminate.
+      match type of H with option_map _ ?x = _ => destruct x; [|discriminate] end. injection H as <-.
+      cbn [ser]. match goal with |- option_map _ ?x <> _ => destruct x end; discriminate.
+    - destruct j; try discriminate.
+      match type of H with option_map _ ?x = _ => destruct x; [|discriminate] end. injection H as <-.
+      cbn [ser]. match goal with |- option_map _ ?x <> _ => destruct x end; discriminate.
+    - destruct j; try discriminate.
+      match type of H with option_map _ ?x = _ => destruct x; [|discriminate] end. injection H as <-.
+      cbn [ser]. match goal with |- option_map _ ?x <> _ => destruct x end; discriminate.
+  Qed.
+
   (** values produced by [deser] satisfy [ok] *)
   Lemma deser_ok t : wf_ty t = true -> forall j v, nodup_deep j = true -> deser t j = Some v -> ok t v.
   Proof.
@@ -422,9 +443,10 @@ Section Proofs.
       injection H as <-. cbn. lia.
     - injection H as <-. exact Hj.
     - destruct j; try discriminate. injection H as <-. split; [eauto|exact Hj].
-    - cbn [wf_ty] in Hwf. apply andb_true_iff in Hwf as [_ Hwf].
+    - cbn [wf_ty] in Hwf.
       destruct j; try (injection H as <-; exact I);
-        (destruct (Serde.deser valid t _) as [v'|] eqn:E; [|discriminate]; injection H as <-; cbn; eapply IH; eauto).
+        (destruct (Serde.deser valid t _) as [v'|] eqn:E; [|discriminate]; injection H as <-; cbn;
+         split; [eapply IH; eauto | eapply deser_ser_not_null; [exact E|discriminate]]).
     - destruct j; try discriminate. cbn [wf_ty] in Hwf. cbn [nodup_deep] in Hj.
       fold (deser_vec t l) in H. destruct (deser_vec t l) as [vs|] eqn:E; [|discriminate]. injection H as <-.
       cbn. fold (ok_vec t vs). revert vs E. induction l as [|x l IHl]; intros vs E; cbn in E.
@@ -472,17 +494,6 @@ Section Proofs.
               apply lookup_In in El. rewrite forallb_forall in Hm. exact (Hm _ El). }
             specialize (G (f_name fm :: f_aliases fm)). rewrite Ef in G. now inversion G. }
           eapply Hft; eauto.
-  Qed.
-
-  (** ** a printed [Option] payload is never `null` *)
-  Lemma ser_not_null t v : opt_inner_ok t = true -> ok t v -> ser t v <> Some JNull.
-  Proof.
-    destruct t; cbn [opt_inner_ok]; intros Hi Hok; try discriminate; destruct v; cbn in Hok; try contradiction;
-      cbn [ser]; try discriminate.
-    - destruct Hok as [[m ->] _]. discriminate.
-    - match goal with |- option_map _ ?x <> _ => destruct x end; discriminate.
-    - match goal with |- option_map _ ?x <> _ => destruct x end; discriminate.
-    - match goal with |- option_map _ ?x <> _ => destruct x end; discriminate.
   Qed.
 
   Lemma find_aliases_cons n al m :
@@ -564,11 +575,11 @@ Section Proofs.
       replace ((lo <=? z)%Z && (z <=? hi)%Z) with true by lia. reflexivity.
     - destruct v; try contradiction. eexists; split; reflexivity.
     - destruct v; try contradiction. destruct Hok as [[m ->] _]. eexists; split; reflexivity.
-    - cbn [wf_ty] in Hwf. apply andb_true_iff in Hwf as [Hi Hwf].
+    - cbn [wf_ty] in Hwf.
       destruct v; try contradiction.
       + exists JNull. split; reflexivity.
-      + cbn in Hok. destruct (IH Hwf v Hok) as (j & Ej & Dj). exists j. split; [exact Ej|].
-        pose proof (ser_not_null t v Hi Hok) as Hnn. rewrite Ej in Hnn.
+      + cbn in Hok. destruct Hok as [Hok Hnn]. destruct (IH Hwf v Hok) as (j & Ej & Dj). exists j. split; [exact Ej|].
+        rewrite Ej in Hnn.
         cbn [Serde.deser]. destruct j; try (rewrite Dj; reflexivity). congruence.
     - cbn [wf_ty] in Hwf. destruct v; try contradiction. cbn in Hok. fold (ok_vec t l) in Hok.
       assert (G : exists js, ser_vec t l = Some js /\ deser_vec t js = Some l).
@@ -621,7 +632,7 @@ Section Proofs.
       destruct v; try contradiction; cbn [ser] in H; try (injection H as <-; reflexivity).
     - injection H as <-. exact Hok.
     - injection H as <-. now destruct Hok.
-    - cbn [wf_ty] in Hwf. apply andb_true_iff in Hwf as [_ Hwf]. eapply IH; eauto.
+    - cbn [wf_ty] in Hwf. destruct Hok as [Hok _]. eapply IH; eauto.
     - cbn [wf_ty] in Hwf. change (option_map JArr (ser_vec t l) = Some j) in H.
       destruct (ser_vec t l) as [js|] eqn:E; [|discriminate]. injection H as <-. cbn [nodup_deep].
       cbn in Hok. fold (ok_vec t l) in Hok. revert js E. induction l as [|x l IHl]; intros js E.
